@@ -86,6 +86,10 @@ CLAIMS["C06"] = ("exploration",
     "stateful PBT over clocked histories of adds, priority changes (immediate, lazy, extreme values), completions, queued successors and pop mode; every frame's top-to-bottom order is judged by a validity predicate against the effective priorities of a reference frame model",
     "exact only for manual refresh with one client and n<=q (the render clock is owned by the harness); ties and the frame after a lazy change accept any order",
     "model-based stateful property testing (rapid) with an order-validity oracle")
+CLAIMS["C12"] = ("exploration",
+    "stateful PBT with recording probes around every decorator: per render cycle and sync column the returned widths must all equal the largest recomputed need over exactly the bars rendered in that cycle; plain decorators return their own need; returned text is the formatted text padded to that width; membership changes (add, remove, drop, pop, successor, cancel) in all three refresh modes",
+    "needs are recomputed from W, the extra-space flag and go-runewidth widths of the text each decorator formatted; hangs are left to C01",
+    "property-based testing (rapid) with an exact width model per cycle and column")
 CLAIMS["C19"] = ("exploration",
     "differential PBT: scripted underlying readers/writers of all four dynamic types consumed through the proxy and bare by the same generated consumer; caller-visible results, underlying-visible calls, delivered bytes, Close counts, fast-path offer, bar accounting and moving-average samples compared",
     "the bare twin plays the same script; sample durations are bounded from below only",
